@@ -32,8 +32,25 @@ from typing import Dict, List, Optional, Set, Tuple
 MAX_DEPTH = 4
 
 
+# The functions and methods the rules anchor on (today's public surface of the flattened modules).  They are never inlined;
+# every *other* function of these modules - private by name, or added later under a public name - is a helper candidate.
+ANCHORS = {
+    "main", "document", "document_single_file",                                   # cminx/__init__.py
+    "process", "process_docs",                                                     # Documenter
+    "config_template", "dict_to_settings",                                         # cminx/config.py
+    "syntaxError", "reportAmbiguity", "reportAttemptingFullContext", "reportContextSensitivity",   # error listeners
+}
+
+
+UNDERSCORE_ONLY = False      # set per module by flatten_module: modules whose public methods are API (rstwriter, ...)
+
+
 def _is_private(name: str) -> bool:
-    return name.startswith("_") and not name.startswith("__")
+    if name.startswith("__"):
+        return False
+    if UNDERSCORE_ONLY:
+        return name.startswith("_")
+    return name.startswith("_") or name not in ANCHORS
 
 
 def _simple_arg(e: ast.expr) -> bool:
@@ -74,6 +91,35 @@ def _eligible(fn: ast.FunctionDef, is_method: bool) -> bool:
                 and isinstance(n.func.value, ast.Name) and n.func.value.id == "self":
             return False
     return True
+
+
+def _generator_shape(fn: ast.FunctionDef):
+    """A helper generator of the shape  <simple statements>; for X in IT: <body>; yield E   (one yield, last statement of
+    the loop body, no return): (prelude statements, loop, yield value) else None."""
+    if fn.decorator_list:
+        return None
+    a = fn.args
+    if a.vararg or a.kwarg or a.posonlyargs:
+        return None
+    body = _body_wo_doc(fn)
+    if not body or not isinstance(body[-1], ast.For) or body[-1].orelse:
+        return None
+    loop = body[-1]
+    yields = [n for n in ast.walk(fn) if isinstance(n, (ast.Yield, ast.YieldFrom))]
+    if len(yields) != 1 or not isinstance(yields[0], ast.Yield) or yields[0].value is None:
+        return None
+    last = loop.body[-1]
+    if not (isinstance(last, ast.Expr) and last.value is yields[0]):
+        return None
+    for n in ast.walk(fn):
+        if isinstance(n, (ast.Return, ast.Await, ast.Global, ast.Nonlocal)):
+            return None
+        if isinstance(n, (ast.FunctionDef, ast.AsyncFunctionDef, ast.ClassDef, ast.Lambda)) and n is not fn:
+            return None
+    for st in body[:-1]:
+        if not isinstance(st, (ast.Assign, ast.AnnAssign, ast.Expr)):
+            return None
+    return body[:-1], loop, yields[0].value
 
 
 def _body_wo_doc(fn: ast.FunctionDef) -> List[ast.stmt]:
@@ -147,6 +193,9 @@ def _contains_return(stmts: List[ast.stmt]) -> bool:
 
 
 class _Inliner:
+    generators: Dict[str, ast.FunctionDef] = {}
+    method_generators: Dict[str, ast.FunctionDef] = {}
+
     def __init__(self, helpers: Dict[str, ast.FunctionDef], method_helpers: Dict[str, ast.FunctionDef]):
         self.helpers = helpers
         self.method_helpers = method_helpers
@@ -428,7 +477,46 @@ class _Inliner:
             out.extend(self.inline_stmt(s, depth))
         return out
 
+    def inline_generator_loop(self, s: ast.For, depth: int) -> Optional[List[ast.stmt]]:
+        """for T in _gen(args): BODY   with _gen of the shape accepted by _generator_shape:
+             <prelude>; for X in IT: <gen body>; T = E; BODY"""
+        if not isinstance(s.iter, ast.Call) or s.orelse:
+            return None
+        f = s.iter.func
+        fn = None
+        is_m = False
+        if isinstance(f, ast.Name) and f.id in self.generators:
+            fn = self.generators[f.id]
+        elif isinstance(f, ast.Attribute) and isinstance(f.value, ast.Name) and f.value.id == "self" and f.attr in self.method_generators:
+            fn, is_m = self.method_generators[f.attr], True
+        if fn is None:
+            return None
+        shape = _generator_shape(fn)
+        if shape is None:
+            return None
+        b = self.bind(fn, s.iter, is_m)
+        if b is None:
+            return None
+        prelude, mapping, rename, tag = b
+        sub = _Subst(mapping, rename)
+        pre_stmts, loop, yval = shape
+        out = list(prelude) + [sub.visit(copy.deepcopy(st)) for st in pre_stmts]
+        new_loop = sub.visit(copy.deepcopy(loop))
+        yv = new_loop.body[-1].value.value
+        bind_target = ast.Assign(targets=[copy.deepcopy(s.target)], value=yv)
+        new_loop.body = new_loop.body[:-1] + [bind_target] + s.body
+        out.append(new_loop)
+        for st in out:
+            ast.copy_location(st, s)
+            ast.fix_missing_locations(st)
+        self.used.add(fn.name)
+        return out
+
     def inline_stmt(self, s: ast.stmt, depth: int) -> List[ast.stmt]:
+        if isinstance(s, ast.For) and depth < MAX_DEPTH:
+            g = self.inline_generator_loop(s, depth)
+            if g is not None:
+                return self.inline_block(g, depth + 1)
         # statement-level forms
         call, store, is_ret = None, None, False
         if isinstance(s, ast.Expr) and isinstance(s.value, ast.Call):
@@ -612,6 +700,195 @@ def _self_coalesce(fn: ast.FunctionDef) -> None:
         ast.fix_missing_locations(fn)
 
 
+def _literal_node(e: ast.expr) -> bool:
+    if isinstance(e, ast.Constant):
+        return True
+    if isinstance(e, (ast.Tuple, ast.List, ast.Set)):
+        return all(_literal_node(x) for x in e.elts)
+    if isinstance(e, ast.Dict):
+        return all(k is not None and _literal_node(k) and _literal_node(v) for k, v in zip(e.keys, e.values))
+    if isinstance(e, ast.BinOp) and isinstance(e.op, ast.Add):
+        return _literal_node(e.left) and _literal_node(e.right)
+    if isinstance(e, ast.UnaryOp) and isinstance(e.op, ast.USub):
+        return _literal_node(e.operand)
+    return False
+
+
+def _module_tables(tree: ast.Module) -> Dict[str, ast.expr]:
+    """Module-level names bound exactly once to a literal tuple/list (a table)."""
+    count: Dict[str, int] = {}
+    val: Dict[str, ast.expr] = {}
+    for st in tree.body:
+        tgt = v = None
+        if isinstance(st, ast.Assign) and len(st.targets) == 1 and isinstance(st.targets[0], ast.Name):
+            tgt, v = st.targets[0].id, st.value
+        elif isinstance(st, ast.AnnAssign) and isinstance(st.target, ast.Name) and st.value is not None:
+            tgt, v = st.target.id, st.value
+        if tgt:
+            count[tgt] = count.get(tgt, 0) + 1
+            val[tgt] = v
+    for n in ast.walk(tree):
+        if isinstance(n, ast.Global):
+            for g in n.names:
+                count[g] = count.get(g, 0) + 1
+    return {k: v for k, v in val.items() if count[k] == 1 and isinstance(v, (ast.Tuple, ast.List)) and _literal_node(v) and len(v.elts) <= 40}
+
+
+def _expand_table_comprehensions(tree: ast.Module, tables: Dict[str, ast.expr]) -> None:
+    """{f(k): v for k in TABLE} / [f(k) for k in TABLE] over a module-level literal table become displays; f-strings whose
+    parts are all constants are folded; {**{...literal...}, ...} is spliced."""
+    class T(ast.NodeTransformer):
+        def _rows(self, comp):
+            if len(comp.generators) != 1:
+                return None
+            g = comp.generators[0]
+            if g.ifs or g.is_async or not isinstance(g.target, ast.Name):
+                return None
+            it = g.iter
+            if isinstance(it, ast.Name) and it.id in tables:
+                return g.target.id, tables[it.id].elts
+            if isinstance(it, (ast.Tuple, ast.List)) and _literal_node(it) and len(it.elts) <= 40:
+                return g.target.id, it.elts
+            return None
+
+        def visit_DictComp(self, node):
+            self.generic_visit(node)
+            r = self._rows(node)
+            if r is None:
+                return node
+            var, rows = r
+            keys, vals = [], []
+            for row in rows:
+                sub = _Subst({var: row}, {})
+                keys.append(self.visit(sub.visit(copy.deepcopy(node.key))))
+                vals.append(self.visit(sub.visit(copy.deepcopy(node.value))))
+            return ast.copy_location(ast.Dict(keys=keys, values=vals), node)
+
+        def visit_ListComp(self, node):
+            self.generic_visit(node)
+            r = self._rows(node)
+            if r is None:
+                return node
+            var, rows = r
+            elts = [self.visit(_Subst({var: row}, {}).visit(copy.deepcopy(node.elt))) for row in rows]
+            return ast.copy_location(ast.List(elts=elts, ctx=ast.Load()), node)
+
+        def visit_JoinedStr(self, node):
+            self.generic_visit(node)
+            parts = []
+            for v in node.values:
+                if isinstance(v, ast.Constant) and isinstance(v.value, str):
+                    parts.append(v.value)
+                elif isinstance(v, ast.FormattedValue) and v.conversion == -1 and v.format_spec is None \
+                        and isinstance(v.value, ast.Constant) and isinstance(v.value.value, (str, int)) \
+                        and not isinstance(v.value.value, bool):
+                    parts.append(str(v.value.value))
+                else:
+                    return node
+            return ast.copy_location(ast.Constant(value="".join(parts)), node)
+
+        def visit_Dict(self, node):
+            self.generic_visit(node)
+            if any(k is None and isinstance(v, ast.Dict) and all(x is not None for x in v.keys) for k, v in zip(node.keys, node.values)):
+                keys, vals = [], []
+                for k, v in zip(node.keys, node.values):
+                    if k is None and isinstance(v, ast.Dict) and all(x is not None for x in v.keys):
+                        keys.extend(v.keys)
+                        vals.extend(v.values)
+                    else:
+                        keys.append(k)
+                        vals.append(v)
+                node.keys, node.values = keys, vals
+            return node
+    T().visit(tree)
+    ast.fix_missing_locations(tree)
+
+
+def _unroll_table_loops(fn: ast.FunctionDef, tables: Dict[str, ast.expr]) -> bool:
+    """for a, b in TABLE: body   with TABLE a module-level literal table: one copy of the body per row, the loop variables
+    replaced by the row's literals; f(*<tuple literal>, **<dict literal>) is then written out as explicit arguments."""
+    changed = False
+
+    class Expand(ast.NodeTransformer):
+        def visit_Call(self, c):
+            self.generic_visit(c)
+            args = []
+            for a in c.args:
+                if isinstance(a, ast.Starred) and isinstance(a.value, (ast.Tuple, ast.List)):
+                    args.extend(a.value.elts)
+                else:
+                    args.append(a)
+            kws = []
+            for k in c.keywords:
+                if k.arg is None and isinstance(k.value, ast.Dict) and all(isinstance(x, ast.Constant) and isinstance(x.value, str) for x in k.value.keys):
+                    kws.extend(ast.keyword(arg=x.value, value=v) for x, v in zip(k.value.keys, k.value.values))
+                else:
+                    kws.append(k)
+            c.args, c.keywords = args, kws
+            return c
+
+    for owner in ast.walk(fn):
+        for field in ("body", "orelse", "finalbody"):
+            block = getattr(owner, field, None)
+            if not isinstance(block, list):
+                continue
+            i = 0
+            while i < len(block):
+                st = block[i]
+                if isinstance(st, ast.For) and isinstance(st.iter, ast.Name) and st.iter.id in tables and not st.orelse \
+                        and not any(isinstance(n, (ast.Break, ast.Continue)) for n in ast.walk(st)):
+                    rows = tables[st.iter.id].elts
+                    tnames = [st.target.id] if isinstance(st.target, ast.Name) else \
+                        [e.id for e in st.target.elts] if isinstance(st.target, ast.Tuple) and all(isinstance(e, ast.Name) for e in st.target.elts) else None
+                    ok = tnames is not None and not any(isinstance(n, ast.Name) and n.id in tnames and isinstance(n.ctx, ast.Store)
+                                                        for b in st.body for n in ast.walk(b))
+                    if ok and isinstance(st.target, ast.Tuple):
+                        ok = all(isinstance(r, (ast.Tuple, ast.List)) and len(r.elts) == len(tnames) for r in rows)
+                    if ok:
+                        new = []
+                        for r in rows:
+                            m = {tnames[0]: r} if isinstance(st.target, ast.Name) else dict(zip(tnames, r.elts))
+                            sub = _Subst(m, {})
+                            for b in st.body:
+                                nb = Expand().visit(sub.visit(copy.deepcopy(b)))
+                                ast.copy_location(nb, st)
+                                ast.fix_missing_locations(nb)
+                                new.append(nb)
+                        block[i:i + 1] = new
+                        i += len(new)
+                        changed = True
+                        continue
+                i += 1
+    return changed
+
+
+def _slice_filters(fn: ast.FunctionDef) -> None:
+    """L[:] = [x for x in L if c]   ==>   for x in list(L): if not c: L.remove(x)
+    (equal for lists without duplicates, which is what os.walk hands out; canonical form of in-place pruning)."""
+    class T(ast.NodeTransformer):
+        def visit_Assign(self, node):
+            if len(node.targets) == 1 and isinstance(node.targets[0], ast.Subscript) and isinstance(node.targets[0].value, ast.Name) \
+                    and isinstance(node.targets[0].slice, ast.Slice) and node.targets[0].slice.lower is None \
+                    and node.targets[0].slice.upper is None and node.targets[0].slice.step is None \
+                    and isinstance(node.value, ast.ListComp) and len(node.value.generators) == 1:
+                L = node.targets[0].value.id
+                g = node.value.generators[0]
+                if isinstance(g.iter, ast.Name) and g.iter.id == L and isinstance(g.target, ast.Name) \
+                        and isinstance(node.value.elt, ast.Name) and node.value.elt.id == g.target.id and g.ifs and not g.is_async:
+                    keep = g.ifs[0] if len(g.ifs) == 1 else ast.BoolOp(op=ast.And(), values=list(g.ifs))
+                    drop = keep.operand if isinstance(keep, ast.UnaryOp) and isinstance(keep.op, ast.Not) else ast.UnaryOp(op=ast.Not(), operand=keep)
+                    rm = ast.Expr(value=ast.Call(func=ast.Attribute(value=ast.Name(id=L, ctx=ast.Load()), attr="remove", ctx=ast.Load()),
+                                                 args=[ast.Name(id=g.target.id, ctx=ast.Load())], keywords=[]))
+                    loop = ast.For(target=ast.Name(id=g.target.id, ctx=ast.Store()),
+                                   iter=ast.Call(func=ast.Name(id="list", ctx=ast.Load()), args=[ast.Name(id=L, ctx=ast.Load())], keywords=[]),
+                                   body=[ast.If(test=drop, body=[rm], orelse=[])], orelse=[], type_comment=None)
+                    ast.copy_location(loop, node)
+                    ast.fix_missing_locations(loop)
+                    return loop
+            return node
+    T().visit(fn)
+
+
 def _fission(fn: ast.FunctionDef) -> bool:
     """Loop fission over a locally built list:
 
@@ -732,13 +1009,21 @@ def _cleanup(fn: ast.FunctionDef, records: Optional[Dict[str, List[str]]] = None
         def visit_Assign(self, node):
             if len(node.targets) == 1 and isinstance(node.targets[0], ast.Tuple) and isinstance(node.value, ast.Tuple) \
                     and len(node.targets[0].elts) == len(node.value.elts) \
-                    and all(isinstance(t, ast.Name) for t in node.targets[0].elts) \
-                    and all(isinstance(v, (ast.Name, ast.Constant)) for v in node.value.elts):
+                    and all(isinstance(t, ast.Name) for t in node.targets[0].elts):
                 tn = {t.id for t in node.targets[0].elts}
-                if not any(isinstance(v, ast.Name) and v.id in tn for v in node.value.elts):
+                if not any(isinstance(x, ast.Name) and x.id in tn for v in node.value.elts for x in ast.walk(v)):
                     return [ast.copy_location(ast.Assign(targets=[t], value=v), node) for t, v in zip(node.targets[0].elts, node.value.elts)]
             return node
     Split().visit(fn)
+
+    class DropIdentity(ast.NodeTransformer):
+        # x = x  (left behind when a helper returns its argument unchanged on one path)
+        def visit_Assign(self, node):
+            if len(node.targets) == 1 and isinstance(node.targets[0], ast.Name) and isinstance(node.value, ast.Name) \
+                    and node.targets[0].id == node.value.id:
+                return ast.copy_location(ast.Pass(), node)
+            return node
+    DropIdentity().visit(fn)
     params = {a.arg for a in fn.args.posonlyargs + fn.args.args + fn.args.kwonlyargs}
     if fn.args.vararg:
         params.add(fn.args.vararg.arg)
@@ -790,18 +1075,35 @@ def _cleanup(fn: ast.FunctionDef, records: Optional[Dict[str, List[str]]] = None
     _fission(fn)
 
 
-def flatten_module(tree: ast.Module) -> Tuple[ast.Module, List[str]]:
+def flatten_module(tree: ast.Module, underscore_only: bool = False) -> Tuple[ast.Module, List[str]]:
     """Returns (flattened copy, names of the helpers that were inlined)."""
+    global UNDERSCORE_ONLY
+    UNDERSCORE_ONLY = underscore_only
+    try:
+        return _flatten_module(tree)
+    finally:
+        UNDERSCORE_ONLY = False
+
+
+def _flatten_module(tree: ast.Module) -> Tuple[ast.Module, List[str]]:
     tree = copy.deepcopy(tree)
     helpers = {n.name: n for n in tree.body if isinstance(n, ast.FunctionDef) and _eligible(n, False)}
+    gens = {n.name: n for n in tree.body if isinstance(n, ast.FunctionDef) and _is_private(n.name) and _generator_shape(n) is not None}
     inlined: List[str] = []
     records = _record_classes(tree)
+    tables = _module_tables(tree)
+    _expand_table_comprehensions(tree, tables)
+    if tables:
+        for node in ast.walk(tree):
+            if isinstance(node, ast.FunctionDef):
+                _unroll_table_loops(node, tables)
     # module-level functions
     for _round in range(MAX_DEPTH):
         changed = False
         for node in tree.body:
             if isinstance(node, ast.FunctionDef):
                 inl = _Inliner({k: v for k, v in helpers.items() if k != node.name}, {})
+                inl.generators = {k: v for k, v in gens.items() if k != node.name}
                 node.body = inl.inline_block(node.body)
                 if inl.used:
                     _cleanup(node, records)
@@ -812,6 +1114,9 @@ def flatten_module(tree: ast.Module) -> Tuple[ast.Module, List[str]]:
                 for m in node.body:
                     if isinstance(m, ast.FunctionDef):
                         inl = _Inliner(helpers, {k: v for k, v in mh.items() if k != m.name})
+                        inl.generators = gens
+                        inl.method_generators = {n.name: n for n in node.body if isinstance(n, ast.FunctionDef) and n is not m
+                                                 and _is_private(n.name) and _generator_shape(n) is not None}
                         m.body = inl.inline_block(m.body)
                         if inl.used:
                             _cleanup(m, records)
@@ -822,6 +1127,7 @@ def flatten_module(tree: ast.Module) -> Tuple[ast.Module, List[str]]:
     # loop fission applies to hand-written functions as well
     for node in ast.walk(tree):
         if isinstance(node, ast.FunctionDef):
+            _slice_filters(node)
             _fission(node)
     # drop helpers that are no longer referenced
     inlined = sorted(set(inlined))
@@ -846,8 +1152,9 @@ def flatten_module(tree: ast.Module) -> Tuple[ast.Module, List[str]]:
                 keep = []
                 for m in node.body:
                     if isinstance(m, ast.FunctionDef) and m.name in inlined:
-                        others = ast.Module(body=[x for x in node.body if x is not m], type_ignores=[])
-                        if not any(isinstance(n, ast.Attribute) and n.attr == m.name for n in ast.walk(others)):
+                        # still referenced anywhere in the module (a subclass may call an inherited helper)?
+                        if not any(isinstance(n, ast.Attribute) and n.attr == m.name and not any(n is x for x in ast.walk(m))
+                                   for n in ast.walk(tree)):
                             continue
                     keep.append(m)
                 node.body = keep
